@@ -225,6 +225,8 @@ def splice(caller, bb, callee):
 def select(F):
     """{callee path: [(caller path, bb)]} of the helpers to splice"""
     anc = anchors()
+    import semantic_anchors
+    anc = anc | semantic_anchors.protected(F)
     sites = {}
     for p, b in F.bodies.items():
         for bi, blk in enumerate(b.blocks):
